@@ -509,6 +509,49 @@ Theorem C01_unfinished_command_rejected :
 Proof. exact RejectFacts.unfinished_command_rejected. Qed.
 Print Assumptions C01_unfinished_command_rejected.
 
+(* in the arguments of a test that still needs arguments: a tag it does not take, a tag whose extension is not loaded, a value of the wrong type -- rejected at that token *)
+Theorem C01_test_argument_rejected :
+  forall T : tables,
+  twf_tables T = true ->
+  forall (text : bytes) (pre : list token) (tn tl : token) (a0toks : list token) 
+    (t : token) (rest : list token) (L : list bytes) (prev : option bytes) 
+    (k : nat) (d : cmddef) (a : argdef) (dl : cmddef) (args0 : list argument) 
+    (fN : frame) (ty : atype),
+  wf_prefix T (map strip_pos pre) L prev k ->
+  fst (lex text) = pre ++ tn :: tl :: a0toks ++ t :: rest ->
+  t_kind tn = TIdentifier ->
+  get_command_instance T L (t_val tn) = inl d ->
+  d_type d = CControl ->
+  d_accept_children d = true ->
+  d_args d = [a] ->
+  is_t1 a = true ->
+  t_kind tl = TIdentifier ->
+  get_command_instance T L (t_val tl) = inl dl ->
+  d_type dl = CTest ->
+  d_expected_first dl = None ->
+  iscomplete (new_frame dl (at_of a)) None = false ->
+  Forall arg_ok args0 ->
+  map strip_pos a0toks = flat_map arg_toks args0 ->
+  feed (new_frame dl (at_of a)) args0 L = FOk fN ->
+  iscomplete fN None = false ->
+  (t_kind t = TString \/ t_kind t = TMultiline) /\
+  ty = TyString /\ utf8_valid (t_val t) = true \/
+  t_kind t = TNumber /\ ty = TyNumber \/ t_kind t = TTag /\ ty = TyTag ->
+  match check_next_arg fN ty (VStr (t_val t)) true true L with
+  | CnaFalse => parse T text = Reject EUnexpectedToken (t_pos t) (Datatypes.length (t_val t))
+  | CnaErr e => parse T text = Reject e (t_pos t) (Datatypes.length (t_val t))
+  | _ => True
+  end.
+Proof. exact RejectFacts.test_argument_rejected. Qed.
+Print Assumptions C01_test_argument_rejected.
+
+(* non-vacuity: `if header :bogus ..` and (ex_tag_extension_in_test) `if header :regex ..` without require *)
+Theorem C01_test_argument_examples :
+  exists e : perr,
+    parse gen_tables (bs (px_text ++ "if header :bogus ""a"" ""b"" { } }")) = Reject e 56 6.
+Proof. exact RejectExamples.ex_unknown_tag_in_test. Qed.
+Print Assumptions C01_test_argument_examples.
+
 (* non-vacuity: `require ["fileinto" "envelope"];` rejected at the second string (with ex_empty_list, ex_trailing_comma, ex_empty_test_list, ex_unclosed_block, ex_unfinished_command) *)
 Theorem C01_malformed_list_examples :
   parse gen_tables (bs "require [""fileinto"" ""envelope""];") = Reject EExpected 20 10.
@@ -521,7 +564,7 @@ Theorem C01_misplaced_else_example :
 Proof. exact RejectExamples.ex_misplaced_else. Qed.
 Print Assumptions C01_misplaced_else_example.
 
-(* non-vacuity on the generated tables (one of eighteen examples in sieve/RejectExamples.v: prefix `require ["fileinto"]; if size :over 100K {`) *)
+(* non-vacuity on the generated tables (one of twenty examples in sieve/RejectExamples.v: prefix `require ["fileinto"]; if size :over 100K {`) *)
 Theorem C01_reject_examples :
   let text := bs (px_text ++ "foo ""x""; }") in
   parse gen_tables text = Reject (EUnknownCommand (bs "foo")) 46 3 /\
